@@ -32,6 +32,28 @@ FPS_FAMILY = ("fps", "pcovfps", "voronoi")
 KEY_F33 = "warm start accepted after a cold fit that raised during its initial selections"
 
 
+FORMS = ["same", "copy", "fortran", "list", "copy", "same"]
+_RESEED = [20260930]
+
+
+def reseed_global_rng():
+    """numpy's global generator is put into a different state before every fit: nothing a selector
+    does may depend on it (initialize='random' draws from check_random_state(random_state))."""
+    _RESEED[0] = (_RESEED[0] * 1103515245 + 12345) % (2 ** 31)
+    np.random.seed(_RESEED[0])
+
+
+def in_form(A, form):
+    """the same data as another object: what a caller may legitimately pass at a later fit."""
+    if A is None or form == "same":
+        return A
+    if form == "copy":
+        return A.copy()
+    if form == "fortran":
+        return np.asfortranarray(A.copy())
+    return A.tolist()
+
+
 # ------------------------------------------------------------------------------- family S
 def gen_session(rng, data, ncand, nr_max):
     """list of events; each event is a dict:
@@ -140,16 +162,35 @@ def gen_session(rng, data, ncand, nr_max):
             ev.append(dict(op="set", set={"initialize": rng.randrange(ncand)}))
         elif r < 0.5:
             ev.append(dict(op="set", set={"progress_bar": False}))
+        elif r < 0.62 and fitted >= 2:
+            # a warm start asking for FEWER items than are selected (int, fraction or None): rejected
+            k = rng.randint(1, fitted - 1)
+            nts = k
+            q = rng.random()
+            if q < 0.3 and int(ncand * ((k + 0.5) / ncand)) == k:
+                nts = (k + 0.5) / ncand
+            elif q < 0.45 and 1 <= ncand // 2 < fitted:
+                nts = None
+            ev.append(dict(op="fit", warm=True, nts=nts, full=False, thr=None, init=good_init, extra={}, mode="pre",
+                           why="shrink"))
         else:
             k = rng.randint(fitted, nr_max)
             nts = k
-            if rng.random() < 0.15 and ncand // 2 >= fitted and ncand // 2 <= nr_max:
+            q = rng.random()
+            if q < 0.15 and ncand // 2 >= fitted and ncand // 2 <= nr_max:
                 nts, k = None, ncand // 2
+            elif q < 0.4:
+                f = 1.0 if k == ncand else (k + 0.5) / ncand
+                if 0 < f <= 1 and int(ncand * f) == k:
+                    nts = f
             ev.append(dict(op="fit", warm=True, nts=nts, full=False, thr=None, init=good_init, extra={}, mode="ok"))
             fitted = k
     if fitted == 0 and fam:
         ev.append(dict(op="fit", warm=True, nts=rng.randint(2, nr_max), full=False, thr=None, init=good_init,
                        extra={}, mode="pre", why="warm_unfitted"))
+    for e in ev:
+        if e["op"] == "fit":
+            e["form"] = rng.choice(FORMS)       # the (equal) data is handed over as another object
     return ev
 
 
@@ -205,11 +246,13 @@ def run_session(data, events):
         r = dict(op="fit")
         with warnings.catch_warnings(record=True) as w:
             warnings.simplefilter("always")
+            Xs, Ys = in_form(X, e.get("form", "same")), in_form(Y, e.get("form", "same"))
+            reseed_global_rng()
             try:
                 if Y is None:
-                    sel.fit(X, warm_start=e["warm"])
+                    sel.fit(Xs, warm_start=e["warm"])
                 else:
-                    sel.fit(X, Y, warm_start=e["warm"])
+                    sel.fit(Xs, Ys, warm_start=e["warm"])
                 r["stopped"] = any("Score threshold" in str(x.message) for x in w)
             except Exception as ex:  # noqa
                 r["error"] = S.err_class(ex)
@@ -277,8 +320,9 @@ def session_oracle(data, events, recs, final_tables, tables_equal):
         valid_n = (nts is None or (isinstance(nts, int) and 0 < nts <= ncand)
                    or (isinstance(nts, float) and 0 < nts <= 1 and int(ncand * nts) >= 1))
         valid = valid_n and not (e["full"] and e["thr"] is not None)
+        shrink = bool(e["warm"] and valid and fitted > 0 and S.resolve_niter(ncand, nts) < fitted)
         if e["warm"]:
-            expect_ok = valid and fitted > 0
+            expect_ok = valid and fitted > 0 and not shrink
         else:
             expect_ok = valid and e["mode"] == "ok"
         if not expect_ok:
@@ -288,6 +332,10 @@ def session_oracle(data, events, recs, final_tables, tables_equal):
                                 "fit has returned since it was created / since its last cold fit raised); it now "
                                 "reports selected_idx_=%s" % (ei, r["obs"]["sel"]),
                                 KEY_F33 if partial_before else None))
+                elif shrink:
+                    out.append(("call %d: fit(warm_start=True) with n_to_select=%r, which resolves to %d < n_selected_=%d, "
+                                "returned normally (selected_idx_=%s) instead of being rejected"
+                                % (ei, nts, S.resolve_niter(ncand, nts), fitted, r["obs"]["sel"]), None))
                 else:
                     out.append(("call %d: an invalid call (%s) was accepted" % (ei, e.get("why")), None))
                 # the object is in an unspecified state now: stop judging this session
@@ -295,6 +343,9 @@ def session_oracle(data, events, recs, final_tables, tables_equal):
             if e["warm"] and valid and fitted == 0 and r["error"] != "ValueError":
                 out.append(("call %d: warm start on a never-fitted selector rejected with %s (%s), not ValueError"
                             % (ei, r["error"], r.get("error_msg")), None))
+            if shrink and r["error"] != "ValueError":
+                out.append(("call %d: a warm start asking for fewer items than are selected was rejected with %s (%s), "
+                            "not ValueError" % (ei, r["error"], r.get("error_msg")), None))
             if valid and not e["warm"] and e["mode"] == "init":
                 fitted = 0
                 if r["n_selected_after"] > 0:
@@ -353,7 +404,7 @@ def forced_reference(kind, axis, X, Y, extra, prefix, n_total):
     return sel, state["real"]
 
 
-def run_switch(data, stages):
+def run_switch(data, stages, forms=None):
     """stages = [(recompute_every, n_to_select), ...]; first cold, others warm, set_params between."""
     kind, axis = data["kind"], data["axis"]
     X = np.array(data["X"], float)
@@ -375,19 +426,21 @@ def run_switch(data, stages):
                     b = np.linalg.norm(np.take(X, [c], axis=axis))
                     cnt += bool(a > sel.tolerance * b)
                 stale_counts.append(cnt)
+            form = "same" if not forms else forms[si % len(forms)]
+            reseed_global_rng()
             if Y is None:
-                sel.fit(X, warm_start=si > 0)
+                sel.fit(in_form(X, form), warm_start=si > 0)
             else:
-                sel.fit(X, Y, warm_start=si > 0)
+                sel.fit(in_form(X, form), in_form(Y, form), warm_start=si > 0)
     return sel, rec.calls, stale_counts
 
 
-def switch_compare(data, stages):
+def switch_compare(data, stages, forms=None):
     """returns (message or None, info)."""
     kind, axis = data["kind"], data["axis"]
     X = np.array(data["X"], float)
     Y = None if data["y"] is None else np.array(data["y"], float)
-    sel, calls, stale = run_switch(data, stages)
+    sel, calls, stale = run_switch(data, stages, forms)
     chain_sel = [int(i) for i in sel.selected_idx_]
     n_pre = stages[-2][1]
     re_last, n_total = stages[-1]
@@ -435,6 +488,7 @@ def prefix_refit(data, nr, kpre, how, n2, final_tables, tables_equal):
     def fit(s):
         with warnings.catch_warnings():
             warnings.simplefilter("ignore")
+            reseed_global_rng()
             return s.fit(X) if Y is None else s.fit(X, Y)
 
     sel = S.make_selector(kind, axis, initialize=data["init"], n_to_select=nr, **data["extra"])
